@@ -733,14 +733,34 @@ def run_C05(ctx):
         viol)
 
 
+def fdfate_run(ctx):
+    """C09, daemon part: fate of the descriptors a running daemon receives for its ring slots (FdFate.tla)."""
+    hist = ctx.tlc_mc("MC_FdFate", "MC_FdFate_cover")
+    hist += ctx.tlc_mc("MC_FdFate", "MC_FdFate_hist" if ctx.tier == "quick" else "MC_FdFate_hist_thorough", max_cases=20000)
+    def letter(a):
+        if a["op"] == "set":
+            return dict(op="fdslot", role=a["role"], q=a["q"], kind=a["kind"])
+        if a["op"] == "base":
+            return dict(op="get_vring_base", q=a["q"])
+        return dict(op="reconnect")
+    cases = [dict(nq=2, masks=[1, 2] if i % 2 else [3], vring="rwlock" if i % 3 else "mutex", adapter="arc",
+                  steps=[NEG] + [letter(a) for a in c["steps"]]) for i, c in enumerate(hist)]
+    cases = replay_or(ctx, "daemon", cases)
+    tr = ctx.harness("daemon", cases, "_fdfate", shards=8)
+    viol = ctx.tlc_tv("TV_FdFate", tr, "daemon_fdfate")
+    ctx.count_distinct(tr, lambda e: (e.get("op"), json.dumps(e.get("letter", {}), sort_keys=True), e.get("status"), tuple(e.get("out", {}).get("held", []))),
+                       lambda e: e.get("ev") == "step" and e.get("op") in ("fdslot", "get_vring_base"))
+    return viol
+
+
 def run_C09(ctx):
     if ctx.replay is not None:
         eng = ctx.replay["engine"]
         viol = {"server": lambda c: hostile_server_run(c, True), "client": lambda c: client_run(c, True),
-                "bereq": lambda c: bereq_run(c, hostile=True), "gpu": gpu_run}[eng](ctx)
+                "bereq": lambda c: bereq_run(c, hostile=True), "gpu": gpu_run, "daemon_fdfate": fdfate_run}[eng](ctx)
     else:
         viol = (hostile_server_run(ctx, fdpos=True) + client_run(ctx, want_mutations=True)
-                + bereq_run(ctx, hostile=True) + gpu_run(ctx, hostile=True))
+                + bereq_run(ctx, hostile=True) + gpu_run(ctx, hostile=True) + fdfate_run(ctx))
     return ctx.finish("fault_enumeration",
         "every connection of the hostile-input spaces of C05/C06 (valid, invalid, truncated, over-stuffed messages with 0..40 descriptors on "
         "the header, on body segments, on requests/replies that take none, beyond the 32-descriptor limit) is torn down after its last "
@@ -749,7 +769,9 @@ def run_C09(ctx):
         "TLC requires: nothing leaked, nothing foreign closed, each delivered descriptor is one that was sent and delivered once, lent "
         "descriptors still open; distinct = (engine, code/op, variant, descriptors, outcome)",
         ASSUME_COMMON + ["descriptors the application handler received by value are dropped by the recording handler (so they must be closed at teardown)",
-                         "the daemon-level part (ring kick/call/err descriptors) is covered by the C11/C14 engines, not here"],
+                         "daemon part (FdFate.tla): descriptors of five kinds (eventfd, either end of a pipe, socket, memory file) sent for the kick/call/"
+                         "error slots of the rings of a running daemon; after every letter each one is held by the daemon iff it occupies a slot "
+                         "(counted through /proc/self/fd identities incl. the kernel's eventfd ids), and none is open once the daemon has been dropped"],
         viol)
 
 
@@ -937,14 +959,31 @@ def run_C17(ctx):
     cases = []
     for i, c in enumerate(cfgs):
         nq = c["nq"]
-        steps = [dict(op="negotiate", feats=[], pf=[3])]
-        for q in range(nq):
-            steps.append(dict(op="set_vring_num", q=q, n=limbs(2 << q)))
-            steps.append(dict(op="set_vring_kick", q=q, fd="new"))
-        order = list(range(nq))
-        rnd.shuffle(order)
-        steps += [dict(op="kick", q=q, which="cur") for q in order]
-        cases.append(dict(nq=nq, masks=c["masks"], maxq=256, vring="rwlock" if i % 2 else "mutex", adapter=("arc", "mutex", "rwlock")[i % 3], steps=steps))
+        # the rings get registered with their workers on four different paths; every configuration takes one of them in the
+        # quick tier (all four in the thorough tier), and in each all rings are started and enabled before the kicks:
+        #   A  no PROTOCOL_FEATURES: registered when the kick descriptor arrives
+        #   B  PROTOCOL_FEATURES: kick descriptors first, then SET_VRING_ENABLE ring by ring
+        #   C  as B but only every other ring is enabled, then SET_FEATURES without PROTOCOL_FEATURES enables the rest in bulk
+        #   D  as B, then RESET_DEVICE (all rings disabled and unregistered), SET_FEATURES, SET_VRING_ENABLE again
+        for variant in ("ABCD" if ctx.tier == "thorough" else "ABCD"[i % 4]):
+            pfv = variant != "A"
+            steps = [dict(op="negotiate", feats=[30] if pfv else [], pf=[3, 13])]
+            for q in range(nq):
+                steps.append(dict(op="set_vring_num", q=q, n=limbs(2 << q)))
+                steps.append(dict(op="set_vring_kick", q=q, fd="new"))
+            if variant in "BD":
+                steps += [dict(op="set_vring_enable", q=q, en=True) for q in range(nq)]
+            if variant == "C":
+                steps += [dict(op="set_vring_enable", q=q, en=True) for q in range(0, nq, 2)]
+                steps.append(dict(op="set_features", bits=[]))
+            if variant == "D":
+                steps.append(dict(op="reset_device"))
+                steps.append(dict(op="set_features", bits=[30]))
+                steps += [dict(op="set_vring_enable", q=q, en=True) for q in reversed(range(nq))]
+            order = list(range(nq))
+            rnd.shuffle(order)
+            steps += [dict(op="kick", q=q, which="cur") for q in order]
+            cases.append(dict(nq=nq, masks=c["masks"], maxq=256, vring="rwlock" if i % 2 else "mutex", adapter=("arc", "mutex", "rwlock")[i % 3], steps=steps))
     # custom listener ids across the 64-bit range
     for nq, masks in ((2, [3]), (3, [5, 2]), (1, [1]), (4, [0xf, 0])):
         ids = [0, nq - 1, nq, nq + 1, nq + 2, 255, 256, 65535]
@@ -1068,7 +1107,7 @@ def run_C13(ctx):
                 st = st + mem_reconnect_tail(pool, G, range(5))
             cases.append(dict(nq=1, masks=[1], pool=pool, vring="rwlock" if i % 2 else "mutex", steps=st))
     cases = replay_or(ctx, "daemon", cases)
-    tr = ctx.harness("daemon", cases, shards=12)
+    tr = ctx.harness("daemon", cases, shards=12, crash_is_data=True)
     viol = ctx.tlc_tv("TV_Mem", tr, "daemon")
     ctx.count_distinct(tr, lambda e: (e.get("op"), json.dumps(e.get("letter", {}).get("rids", e.get("letter", {}).get("rid"))), e.get("status"), json.dumps(e.get("out"))),
                        lambda e: e.get("ev") == "step" and e.get("op") != "negotiate")
